@@ -183,7 +183,7 @@ def composite_cases(rng, ntab, per_table=8, tag="wc", argmasks=None, modes_f=(4,
     from . import gen_table as G
     cases = []
     for i in range(ntab):
-        t = G.gen_table(rng, "composite" if i % 4 else "f0", per_stage=(0, 2), biased=(i % 2 == 0))
+        t = G.gen_table(rng, "composite" if i % 4 else "f0", per_stage=(0, 2), biased=(i % 2 == 0), context=(i % 3 == 1))
         tn = "%s%d.ctb" % (tag, i)
         ops = ["DUMP %s" % tn]
         lit_c, lit_d = pass_literals(t)
